@@ -1,4 +1,5 @@
 """C16 — expansion never panics: every input yields impls or diagnostics."""
+import os
 import re
 
 from ..linetables import OPAQUE, TRANSPARENT, _cached
@@ -43,9 +44,12 @@ def w_c15_class(chk, names):
     sub = Check("C15", chk.repo, chk.tier)
     c15.r5(sub)
     c15.r1(sub)
+    sub.guard("R9", lambda: c15.r9(sub))
     ok = True
     for n in names:
         hit = [i for i in sub.instances if (i.key.startswith(n[:-1]) if n.endswith("*") else i.key == n)]
+        if not hit and any(n.rstrip("*") in why for _r, why in sub.inconclusive):
+            return None  # the validator was refactored into a shape the guard-set rule does not order
         ok = ok and bool(hit) and all(i.ok for i in hit)
     return ok
 
@@ -200,16 +204,16 @@ TABLE = [
      w_all(lambda chk: w_peek_then_parse(chk, "try_parse_optional_ident", "ifpeek_member(input){letfork=input.fork();fork.parse::<Member>().unwrap()"), w_peek_member)),
     (r"^quote_try_(from|into|into_existing)_trait:ctx\.struct_attr\.err_ty\.as_ref\(\)\.unwrap\(\)", None, "G2",
      "validation rejects fallible instructions without an error type, for all 6 fallible conversions",
-     lambda chk: w_c15_class(chk, ["class[missing error type]", "validate_struct_attrs[fallible=*"] + [f"validate_struct_attrs[{k},True]" for k in ("FromOwned", "FromRef", "OwnedInto", "RefInto", "OwnedIntoExisting", "RefIntoExisting")])),
+     lambda chk: w_c15_class(chk, ["class[missing error type]", "validate_struct_attrs[Error type should be specified for fallible inst]", "validate_struct_attrs[fallible=*"] + [f"validate_struct_attrs[{k},True]" for k in ("FromOwned", "FromRef", "OwnedInto", "RefInto", "OwnedIntoExisting", "RefIntoExisting")])),
     (r"^render_child_fragment:.*child_parents_attr\(&ctx\.struct_attr\.ty\)\.unwrap\(\)", "^Field", "G2", "check_child_errors: every child path of an Into conversion has a child_parents instruction",
-     lambda chk: w_c15_class(chk, ["class[child without child_parents]", "check_child_errors/all-prefixes"])),
+     lambda chk: w_c15_class(chk, ["class[child without child_parents]", "check_child_errors/all-prefixes", "check_child_errors[Missing #[child_parents(...)] instruction for {}]", "validate_fields[call:check_child_errors(*"])),
     (r"^render_child_fragment:child_parents\.find\(", "^Field", "G2", "check_child_errors: every prefix of every child path has an entry",
-     lambda chk: w_c15_class(chk, ["class[child without child_parents]", "check_child_errors/all-prefixes"])),
+     lambda chk: w_c15_class(chk, ["class[child without child_parents]", "check_child_errors/all-prefixes", "check_child_errors[Missing '{}: [Type Path]' instruction for type {]", "validate_fields[call:check_child_errors(*"])),
     (r"^render_parent_child_fragment:parent_child_field\.sub_path\[depth\]\.1\.as_ref\(\)\.unwrap\(\)", None, "G2", "validate_parent_attrs: nested parent fields must be typed for From conversions",
-     lambda chk: w_c15_class(chk, ["class[untyped nested parent]"])),
+     lambda chk: w_c15_class(chk, ["class[untyped nested parent]", "validate_parent_attrs[Field '{0}' should have type here, e.g. '{0}: So]", "validate[call:validate_parent_attrs(*"])),
     (r"^struct_post_init:todo!\(\)", None, "G2", "bare #[parent] on an enum variant is rejected by validation (bark_at_member_attr)", w_parent_bark),
     (r"^render_struct_line:unreachable!\('6'\)", "^Field$", "G2", "tuple field without instruction under a struct-form hint is rejected by validate_fields / validate_variant_fields (top-level hint)",
-     lambda chk: w_c15_class(chk, ["class[tuple/named mismatch (struct)]", "class[tuple/named mismatch (variant)]"])),
+     lambda chk: w_c15_class(chk, ["class[tuple/named mismatch (struct)]", "class[tuple/named mismatch (variant)]", "validate_fields[Member {} should have member trait instruction w]", "validate_variant_fields[Member {} of a variant {} should have member tra]"])),
     (r"^struct_init_block_inner:unreachable!\('2'\)", "^$", "G3", "top level: struct_init_block returns early for non-From + hint Unit", w_struct_init_block_guard),
     (r"^DataType::named_fields:panic!", None, "G3", "named_fields() is only called from the struct renderers, which are entered with a (real or synthetic) Struct", w_named_fields_callers),
     (r"^validate_error_instrs:unreachable!\('13'\)", None, "G3", "error_instrs only ever holds the diagnostic variants, all of which validate_error_instrs matches",
@@ -292,7 +296,92 @@ def w_depth_guards(chk):
         "depth.is_none()||(depth.unwrap()<parent_child_field.sub_path.len())" in b and "letnew_depth=depth.map_or(0,|x|(x+1))" in b
 
 
+def r5_mir(chk):
+    """Thorough tier: completeness of the syntactic site enumeration against the type-resolved MIR of both build configurations."""
+    from .. import mirfacts as M
+    repo = chk.repo
+    chk.rule("R5", "every type-resolved panic-capable terminator of o2o-impl's MIR (calls to Option/Result::unwrap|expect, core::panicking::*, Index::index, "
+                   "Assert terminators) lies on a site the syntactic enumeration analysed, or is statically safe (constant in-bounds index, counter increment)", floor=90)
+    fs = M.facts(repo)
+    syn_sites = set()
+    has_unsafe = False
+    for f in IMPL_FILES + ["o2o-impl/src/kw.rs", "o2o-impl/src/lib.rs"]:
+        try:
+            has_unsafe = has_unsafe or bool(re.search(r"\bunsafe\b", repo.text(f)))
+        except Exception:
+            pass
+    for f in IMPL_FILES:
+        for fi in repo.fns(f):
+            for s in sites_of(fi):
+                syn_sites.add((f, s["line"]))
+                # a multi-line expression: MIR reports the first line of the call expression, the enumerator the line of the method name
+                n = s["node"]
+                if n.get("line") is not None:
+                    syn_sites.add((f, n["line"]))
+    kw_lines = {}
+
+    def kw_line(d):
+        """Is the (macro-expanded) fact located on a `custom_keyword!(..)` item of kw.rs (syn's own expansion, trusted library code)?"""
+        if d["file"] not in kw_lines:
+            try:
+                with open(os.path.join(repo.root, d["file"]), encoding="utf-8") as fh:
+                    kw_lines[d["file"]] = fh.read().splitlines()
+            except OSError:
+                kw_lines[d["file"]] = []
+        ls = kw_lines[d["file"]]
+        return 0 < d["line"] <= len(ls) and re.match(r"\s*(syn2?::)?custom_keyword!\(\w+\);", ls[d["line"] - 1]) is not None
+    seen = {}
+    for d in fs:
+        if d["k"] == "call":
+            kind = M.panic_kind(d["callee"])
+            what = d["callee"]
+            if kind is None:
+                if M.unmodelled(d["callee"]):
+                    if d["exp"] and kw_line(d):
+                        continue  # syn::custom_keyword! expansion: Ident::new on a literal keyword
+                    chk.inconc("R5", f"{d['caller']}: call to {d['callee'][:90]} (panics on a value-dependent precondition; no rule of this check models it)")
+                continue
+        else:
+            kind = "assert"
+            what = d["msg"]
+        key = (d["caller"], kind, re.sub(r"_\d+", "_", what)[:100])
+        ent = seen.setdefault(key, {"n": 0, "cfgs": set(), "verdict": None, "file": d["file"], "line": d["line"]})
+        ent["n"] += 1
+        ent["cfgs"].add(d["cfg"])
+        if d["exp"] and kw_line(d):
+            ent["verdict"] = ent["verdict"] or "inside syn's custom_keyword! expansion (library code)"
+            continue
+        if kind == "assert":
+            m = re.match(r"BoundsCheck \{ len: const (\d+)_usize, index: const (\d+)_usize", what)
+            if m and int(m.group(2)) < int(m.group(1)):
+                ent["verdict"] = ent["verdict"] or "constant index in bounds"
+                continue
+            if re.match(r"Overflow\(Add, (copy|move) _\d+, const \d+_usize\)", what):
+                ent["verdict"] = ent["verdict"] or "counter increment bounded by the number of input members"
+                continue
+            if re.match(r"(MisalignedPointerDereference|NullPointerDereference)", what) and not has_unsafe:
+                ent["verdict"] = ent["verdict"] or "debug pointer check on a safe reference (no unsafe code in the crate)"
+                continue
+        if (d["file"], d["line"]) in syn_sites:
+            ent["verdict"] = ent["verdict"] or "analysed by R1/R2 at this line"
+            continue
+        ent["verdict"] = False
+    for (caller, kind, what), ent in sorted(seen.items()):
+        k = f"mir:{caller}:{kind}:{what[:70]}"
+        if ent["verdict"] is False:
+            chk.inconc("R5", f"{k} at {ent['file']}:{ent['line']}: resolved panic-capable terminator that the syntactic enumeration did not analyse")
+        else:
+            chk.ok("R5", k, ent["file"], ent["line"], detail={"why": ent["verdict"], "occurrences": ent["n"], "configs": sorted(ent["cfgs"])})
+    chk.unit("mir_facts", len(fs))
+
+
 def run(chk):
+    if chk.tier == "thorough":
+        chk.guard("R5", lambda: r5_mir(chk))
+    run_quick(chk)
+
+
+def run_quick(chk):
     repo = chk.repo
     chk.rule("R1", "every unwrap/expect/panic-macro site is executed by some root region and no leaf panics there, or its obligation (site@root[case]) is discharged by the table / a known finding", floor=50)
     chk.rule("R2", "index / arithmetic / token-macro sites: total Index<&Enum> impls with constant slots < N, position-bounded indices, len()-1 on non-empty data, f{} idents", floor=40)
@@ -321,6 +410,9 @@ def run(chk):
                 o = ords.get(base, 0)
                 ords[base] = o + 1
                 key = site_key(fi, s, o)
+                if s["detail"].endswith("(ufcs)"):
+                    chk.inconc("R1", f"{key} at {f}:{s['line']}: unwrap/expect used as a path (UFCS call or function value); the evaluator does not model this form")
+                    continue
                 if s["kind"] == "index":
                     if index_rules(chk, fi, s, key):
                         continue
